@@ -83,7 +83,7 @@ def getDelim (scope : Scope) (isSym hasLB suppressed : Bool) (b : Bound) : Doc :
 def markupNodeStep (e : Env) (r : Rec) (ctx : Ctx) (mixed : Bool) (doc : Doc) (node : ANode) : M Doc := do
   let d ←
     if node.kind == .space then pure space
-    else if node.kind == .text then pure (e.tok node.intoText)
+    else if node.kind == .text then pure (e.prose node.intoText)
     else if isExpr node then r.expr (if mixed then ctx.suppress else ctx) node
     else if isCommentKind node.kind then convCommentT e node
     else pure (e.tok node.text)       -- Hash, Semicolon, Shebang
@@ -111,24 +111,28 @@ def convStrongEmph (e : Env) (r : Rec) (ctx : Ctx) (n : ANode) (delim : String) 
   pure (d.enclose (e.syn delim) (e.syn delim))
 
 def rawStep (e : Env) (doc : Doc) (c : ANode) : Doc :=
-  if c.kind == .rawDelim || c.kind == .rawLang then doc ++ e.tok c.text
-  else if c.kind == .text then doc ++ e.tok c.intoText
+  if c.kind == .rawDelim || c.kind == .rawLang then doc ++ e.lit c.text
+  else if c.kind == .text then doc ++ e.lit c.intoText
   else if c.kind == .rawTrimmed then doc ++ (if hasLinebreak c.text then hardline else space)
   else doc
 
-/-- `convert_raw`. -/
-def convRaw (e : Env) (n : ANode) : Doc :=
+/-- A raw element that is not a block but spans several lines is copied as it is. -/
+def rawIsVerbatim (n : ANode) : Bool :=
   let delimLen := ((firstWhere n (·.kind == .rawDelim)).map (·.text.utf8ByteSize)).getD 0
   let isBlock := delimLen ≥ 3 && n.children.any (fun c => c.kind == .rawTrimmed && c.text.toList.any isNewlineChar)
   let lines := (n.children.filter (·.kind == .text)).length
-  if !isBlock && lines > 1 then e.verb n.intoText
+  !isBlock && lines > 1
+
+/-- `convert_raw`. -/
+def convRaw (e : Env) (n : ANode) : Doc :=
+  if rawIsVerbatim n then e.lit n.intoText
   else n.children.foldl (rawStep e) Doc.nil
 
 /-- `convert_ref`. -/
 def convRef (e : Env) (r : Rec) (ctx : Ctx) (n : ANode) : M Doc := do
   let marker ← childOr (firstWhere n (·.kind == .refMarker)) "Ref without RefMarker"
   let target := String.ofList (marker.text.toList.dropWhile (· == '@'))
-  let doc := e.syn "@" ++ e.tok target
+  let doc := e.syn "@" ++ e.plit target
   match lastWhere n (·.kind == .contentBlock) with
   | some s => pure (doc ++ (← convContentBlock e r ctx s))
   | none => pure doc
@@ -143,18 +147,19 @@ def headingProducer (e : Env) (r : Rec) (_ : Unit) (c : Ctx) (child : ANode) : M
 def convHeading (e : Env) (r : Rec) (ctx : Ctx) (n : ANode) : M Doc :=
   flowM e ctx n.children () (headingProducer e r)
 
-def listItemProducer (e : Env) (r : Rec) (_ : Unit) (c : Ctx) (child : ANode) : M (Unit × Option FlowItem) := do
+/-- State: nothing has been emitted since the marker (an empty term, `/ : desc`). -/
+def listItemProducer (e : Env) (r : Rec) (afterMarker : Bool) (c : Ctx) (child : ANode) : M (Bool × Option FlowItem) := do
   match child.kind with
-  | .listMarker | .enumMarker | .termMarker => pure ((), spaced (e.tok child.text))
-  | .colon => pure ((), tightSpaced (e.tok child.text))
-  | .space => if hasLinebreak child.text then pure ((), tight hardline) else pure ((), none)
-  | .parbreak => pure ((), tight (repeatN hardline (countLinebreaks child.text)))
-  | .markup => if !child.children.isEmpty then pure ((), spaced (← r.markup c child .item)) else pure ((), none)
+  | .listMarker | .enumMarker | .termMarker => pure (true, spaced (e.tok child.text))
+  | .colon => pure (false, some ⟨e.tok child.text, afterMarker, true⟩)
+  | .space => if hasLinebreak child.text then pure (afterMarker, tight hardline) else pure (afterMarker, none)
+  | .parbreak => pure (afterMarker, tight (repeatN hardline (countLinebreaks child.text)))
+  | .markup => if !child.children.isEmpty then pure (false, spaced (← r.markup c child .item)) else pure (afterMarker, none)
   | k => reject (.dropped "convert_list_item_like" k)
 
 /-- `convert_list_item_like`. -/
 def convListItemLike (e : Env) (r : Rec) (ctx : Ctx) (n : ANode) : M Doc := do
-  let d ← flowM e ctx n.children () (listItemProducer e r)
+  let d ← flowM e ctx n.children false (listItemProducer e r)
   pure (d.nstTab)
 
 end Typstyle
